@@ -24,7 +24,9 @@ REQUIRED_THEOREMS = ["faces_in_bijection", "ref_vertex_face_by_face", "ref_verte
                      "dual_tree_refines_dijkstra_source", "dual_tree_result_source", "dual_tree_terminates_source",
                      "dual_tree_is_forest_source", "dual_tree_spans_source",
                      # round 5: find loop, renumbering loop, order_verts of _build_mesh_with_cuts
-                     "find_loop_source", "map_loop_source", "order_verts_source", "build_stages_source"]
+                     "find_loop_source", "map_loop_source", "order_verts_source", "build_stages_source",
+                     # round 6: chi = 1 on the source's own dual tree
+                     "dual_tree_structure_source", "euler_characteristic_of_source_dual_tree_partial", "build_ref_source"]
 TRUSTED = [
     "Lean 4.33.0 kernel; axioms ⊆ {propext, Classical.choice, Quot.sound}",
     "hand-written model Mouette/Model/Cutting.lean (_build_cut_edges_tree, _prune_edge_tree, _build_mesh_with_cuts over the C20 "
@@ -569,7 +571,7 @@ SOURCE_MAP = {
     _CUT + "_build_cut_edges_tree": "translated",
     _CUT + "_prune_edge_tree": "translated",
     _CUT + "_build_cut_graph_as_mesh": "oracle-only",
-    _CUT + "_build_mesh_with_cuts": "translated: corner numbering, union loop, find loop, imap loop, renumbering loop, order_verts (bridged by build_source, build_stages_source); only the duplicate_vertices / ref_vertex bookkeeping is hand-modelled",
+    _CUT + "_build_mesh_with_cuts": "translated",   # every stage: corner numbering, unions, find, imap, renumbering, order_verts, duplicate_vertices / ref_vertex (build_stages_source, build_ref_source)
     "mouette/processing/paths.py::build_path": "oracle-only",
     "mouette/processing/paths.py::_check_weight_argument": "oracle-only",
     "mouette/processing/paths.py::shortest_path": "oracle-only",
@@ -628,7 +630,12 @@ MANIFEST = {
                    "so for every min-heap and non-negative face distances: the loop terminates with an empty queue (dual_tree_terminates_source), every "
                    "path[f] is a non-forbidden edge joining f to a face visited EARLIER - a forest rooted at face 0 (dual_tree_is_forest_source) - and every "
                    "face joined to face 0 across non-forbidden edges is visited and has a tree edge (dual_tree_spans_source); the find loop, the renumbering "
-                   "loop and order_verts of _build_mesh_with_cuts are translated and bridged as well (build_stages_source). The property is also checked on histories (cutter run twice, a second cutter on a "
+                   "loop and order_verts of _build_mesh_with_cuts are translated and bridged as well (build_stages_source). ROUND 6: the duplicate_vertices / "
+                   "ref_vertex bookkeeping is translated too (build_ref_source): every stage of _build_mesh_with_cuts is read from the source; and the Euler "
+                   "characteristic is stated ON THE SOURCE'S OWN DUAL TREE (euler_characteristic_of_source_dual_tree_partial): for a connected dual graph, the "
+                   "cut mesh built from the complement of the edge set returned by the translated _build_dual_tree_no_features (before pruning) has |uncut| = F-1, "
+                   "all 2|uncut| corner unions effective and chi = 1 - 'forest edges are effective in any order' by counting (effective_of_spanning_tree); "
+                   "hypotheses left: sep (sides coincide only when glued) and LinkOK (opposite_face / face_to_edges agree with the half-edge table). The property is also checked on histories (cutter run twice, a second cutter on a "
                    "used mesh, accessors in every order, detector run twice) and on every representation of the singularity set (list, "
                    "tuple, set, int64/int32 ndarray, numpy scalars, vertex attribute), with by-value snapshots. NOT proved - checked on every run by the oracle with an independent routine "
                    "(surface_stats): the cut mesh is ONE component with ONE border loop and Euler characteristic 1 (tree-cotree theorem), "
